@@ -134,8 +134,10 @@ def draw_level(data, sc, L, pos, bl, depth, cur=False):
     pos += bl
     for g in L.groups:
         dim = g.dimension
-        mode = data.draw(st.sampled_from(["F", "F", "F", "H", "M"]))
+        mode = data.draw(st.sampled_from(["F", "F", "F", "F", "H", "H", "M", "M", "C"]))
         n = data.draw(st.integers(0, 3 if depth < 2 else 2))
+        if mode == "C":
+            n = 0    # clear(): numInGroup := 0 and nothing else (blockLength keeps whatever the buffer holds)
         blm = M.member(dim, "blockLength")
         nig = M.member(dim, "numInGroup")
         sc.ops.add("group_" + mode)
@@ -144,6 +146,11 @@ def draw_level(data, sc, L, pos, bl, depth, cur=False):
             M.write_header(sc.buf, pos, dim, M.header_values(g, num_in_group=n))
             sc.writes += 1
             sc.rets.append("hdr=%d" % pos)
+            gbl = g.block_length
+        elif mode == "C":
+            sc.tok += ["C", "0"]
+            M.put_member(sc.buf, pos, nig, 0)
+            sc.writes += 1
             gbl = g.block_length
         else:
             extra = data.draw(st.sampled_from([0, 0, 1, 4]))
